@@ -604,8 +604,16 @@ func (w *verifWorld) runtimeInitError(who string, errType string, payload []byte
 }
 
 func (w *verifWorld) extRegister(who, name string, events []string) *verifRec {
+	return w.extRegisterF(who, name, events, "")
+}
+
+// extRegisterF: registration with a Lambda-Extension-Accept-Feature header
+func (w *verifWorld) extRegisterF(who, name string, events []string, features string) *verifRec {
 	h := http.Header{}
 	h.Set("Lambda-Extension-Name", name)
+	if features != "" {
+		h.Set("Lambda-Extension-Accept-Feature", features)
+	}
 	body, _ := json.Marshal(map[string][]string{"events": events})
 	w.note(who, "register-issued", name)
 	rec := w.call("/extension/register", "POST", h, body)
@@ -1119,6 +1127,10 @@ func (a *VerifExtAPI) ExitWith(status, signo int32) {
 }
 func (a *VerifExtAPI) Register(name string, events []string) (int, string, string) {
 	r := a.w.extRegister(a.who, name, events)
+	return r.status, r.hdr.Get("Lambda-Extension-Identifier"), string(r.body)
+}
+func (a *VerifExtAPI) RegisterWithFeatures(name string, events []string, features string) (int, string, string) {
+	r := a.w.extRegisterF(a.who, name, events, features)
 	return r.status, r.hdr.Get("Lambda-Extension-Identifier"), string(r.body)
 }
 func (a *VerifExtAPI) Next(identifier string) (int, string) {
